@@ -483,12 +483,16 @@ func (h kvHandler) handleKvRawBatchGet(req *kvrpcpb.RawBatchGetRequest) *kvrpcpb
 		}
 	}
 	values := rawKV.RawBatchGet(req.Cf, req.Keys)
-	kvPairs := make([]*kvrpcpb.KvPair, len(values))
+	// Like TiKV, only the keys that exist are returned (a nil value means "not found").
+	kvPairs := make([]*kvrpcpb.KvPair, 0, len(values))
 	for i, key := range req.Keys {
-		kvPairs[i] = &kvrpcpb.KvPair{
+		if i >= len(values) || values[i] == nil {
+			continue
+		}
+		kvPairs = append(kvPairs, &kvrpcpb.KvPair{
 			Key:   key,
 			Value: values[i],
-		}
+		})
 	}
 	return &kvrpcpb.RawBatchGetResponse{
 		Pairs: kvPairs,
